@@ -51,7 +51,10 @@ def run(chk, repo: Repo):
     lm = repo.cls(LM)
     adj = repo.method(lm, "adjoint")[1]
     # R1
-    rets = [n for n in ast.walk(adj) if isinstance(n, ast.Return)]
+    from .common import canon_fn, views
+    from ..pattern import norm as pn
+    adj4 = canon_fn(repo, lm, adj, 4)
+    rets = [n for n in ast.walk(adj4) if isinstance(n, ast.Return)]
     ok = len(rets) == 1 and isinstance(rets[0].value, ast.Call) and call_name(rets[0].value) == "self._apply_func" and \
         [_norm(a) for a in rets[0].value.args] == ["self._adjoint_func", "self.domain_geometry", "self.range_geometry", func_params(adj)[1], func_params(adj)[2]]
     chk.add("C07-R1", f"{lm.qual}.adjoint", ok, site(repo, adj), "_apply_func(self._adjoint_func, domain_geometry, range_geometry, y, is_par)",
@@ -94,17 +97,23 @@ def run(chk, repo: Repo):
     ctor = [c for c in ast.walk(T.getter) if isinstance(c, ast.Call) and call_name(c) == "LinearModel"]
     if len(ctor) != 1:
         raise AnchorError("LinearModel.T: constructor call not found")
-    args = [_norm(a) for a in ctor[0].args]
+    # positional and keyword arguments are bound to LinearModel.__init__'s parameter list
+    iparams = func_params(init)[1:]
+    bound_args = {p_: _norm(a) for p_, a in zip(iparams, ctor[0].args)}
+    bound_args.update({k.arg: _norm(k.value) for k in ctor[0].keywords if k.arg})
+    args = [bound_args.get(p_, "?") for p_ in iparams[:4]]
     wrapped = [a for a in args[:2] if a in ("self.adjoint", "self.forward")]
     chk.add("C07-R4", f"{lm.qual}.@T", not wrapped or _has_identity_guard(T.getter), site(repo, T.getter), "raw operators passed to the transposed model",
             f"the transposed model stores the geometry-wrapped methods {wrapped} in its raw operator slots, so both geometries are applied twice "
             f"(and the matrix shortcut is the transposed raw matrix): wrong or failing for non-identity geometries", T.getter)
-    ok = len(args) == 4 and args[2:] == ["self.domain_geometry", "self.range_geometry"] and \
-        any(_norm(n) == "transpose._matrix=self._matrix.T" for n in ast.walk(T.getter) if isinstance(n, ast.Assign))
+    tname = [path_of(s_.targets[0]) for s_ in ast.walk(T.getter) if isinstance(s_, ast.Assign) and s_.value is ctor[0]]
+    ok = len(args) == 4 and iparams[2:4] == ["range_geometry", "domain_geometry"] and args[2:] == ["self.domain_geometry", "self.range_geometry"] and \
+        bool(tname) and any(_norm(n) == f"{tname[0]}._matrix=self._matrix.T" for n in ast.walk(T.getter) if isinstance(n, ast.Assign))
     chk.add("C07-R1", f"{lm.qual}.@T/swap", ok, site(repo, T.getter), "geometries swapped, stored matrix transposed",
             "transposed model does not swap the geometries / transpose the stored matrix consistently", T.getter)
-    # R5
-    loops = [n for n in ast.walk(gm) if isinstance(n, ast.For)]
+    # R5 (on the structural normal form with temporaries such as `n = self.domain_dim` substituted; the buffer and index names are read off)
+    gm4 = canon_fn(repo, lm, gm, 4)
+    loops = [n for n in ast.walk(gm4) if isinstance(n, ast.For)]
     problems = []
     if len(loops) != 1:
         raise AnchorError("get_matrix: column loop not found")
@@ -113,13 +122,18 @@ def run(chk, repo: Repo):
     if _norm(lp.iter) != "range(self.domain_dim)":
         problems.append(f"columns are enumerated over {unparse(lp.iter)}, not range(self.domain_dim)")
     body = [_norm(s) for s in lp.body]
+    sets = [s_ for s_ in lp.body if isinstance(s_, ast.Assign) and isinstance(s_.targets[0], ast.Subscript) and _norm(s_.targets[0].slice) == i
+            and isinstance(s_.value, ast.Constant) and s_.value.value == 1]
+    if len(sets) != 1:
+        raise AnchorError("get_matrix: unit-vector set/reset idiom not found")
+    e = path_of(sets[0].targets[0].value)
     try:
-        i_set = body.index(f"e[{i}]=1")
-        i_reset = body.index(f"e[{i}]=0")
+        i_set = body.index(f"{e}[{i}]=1")
+        i_reset = body.index(f"{e}[{i}]=0")
     except ValueError:
         raise AnchorError("get_matrix: unit-vector set/reset idiom not found")
     between = lp.body[i_set + 1:i_reset]
-    fcalls = [c for st in lp.body for c in ast.walk(st) if isinstance(c, ast.Call) and _norm(c) == "self.forward(e)"]
+    fcalls = [c for st in lp.body for c in ast.walk(st) if isinstance(c, ast.Call) and _norm(c) == f"self.forward({e})"]
     if len(fcalls) != 1 or not any(fcalls[0] in list(ast.walk(st)) for st in between):
         problems.append("forward(e) is not evaluated exactly once between setting and resetting component i")
     else:
@@ -148,6 +162,24 @@ def run(chk, repo: Repo):
         elif isinstance(par, ast.Attribute) and par.attr == "copy":
             consumed = "copy"
         if consumed is None:
+            # the call is nested in the consuming expression (its temporary was substituted): walk up to the statement
+            n_ = fc
+            while n_ is not None and not isinstance(n_, ast.stmt):
+                n_ = getattr(n_, "_parent", None)
+                if isinstance(n_, ast.Call) and call_name(n_) in COPYING:
+                    consumed = "copy"
+                    st = n_
+                    while st is not None and not isinstance(st, ast.stmt):
+                        st = getattr(st, "_parent", None)
+                    if isinstance(st, ast.Assign) and _norm(n_).split("((")[-1].split(",")[0] != path_of(st.targets[0]) and call_name(n_) in ("hstack", "np.hstack"):
+                        problems.append("new column is not appended on the right of the accumulated matrix (column order)")
+                    break
+                if isinstance(n_, ast.Call) and isinstance(n_.func, ast.Attribute) and n_.func.attr in ("append", "extend", "insert"):
+                    consumed = "alias"
+                    break
+            if consumed is None and isinstance(n_, ast.Assign) and isinstance(n_.targets[0], ast.Subscript):
+                consumed = "copy"
+        if consumed is None:
             raise AnchorError("get_matrix: unknown idiom for storing column i (neither a copying store nor a container append)")
         if consumed == "alias":
             problems.append("the result of forward(e) is kept by reference (appended to a container) while the unit-vector buffer e is "
@@ -161,29 +193,72 @@ def _r6(chk, repo):
     (the adjoint of a symmetric/edge/reflect extension folds the border back, it does not pad) and (ii) the even-size crop
     is mirrored (last instead of first row/column)."""
     TP = "cuqi/testproblem/_testproblem.py"
-    fwd = repo.func(f"{TP}:_proj_forward_2D")
-    bwd = repo.func(f"{TP}:_proj_backward_2D")
+    from .common import canon_fn
+    from ..flow import Expander
+    fwd_src = repo.func(f"{TP}:_proj_forward_2D")
+    bwd_src = repo.func(f"{TP}:_proj_backward_2D")
+    fwd = canon_fn(repo, None, fwd_src, 4, rel=TP)
+    bwd = canon_fn(repo, None, bwd_src, 4, rel=TP)
+    Bp, P, BCp = func_params(bwd_src)[:3]
+    # ---- backward: every return is forward(B, flip(P), BC)
+    exb = Expander(bwd)
+    FLIPS = (f"np.flipud(np.fliplr({P}))", f"np.fliplr(np.flipud({P}))", f"{P}[::-1,::-1]", f"np.flip({P})", f"np.flip({P},(0,1))", f"np.flip({P},axis=(0,1))")
+    rets = exb.cfg.returns()
+    delegating = [r for r in rets if isinstance(r.ast.value, ast.Call) and call_name(r.ast.value) == "_proj_forward_2D" and len(r.ast.value.args) == 3]
+    own_algorithm = [r for r in rets if r not in delegating]
     tb = _norm(bwd)
-    P = func_params(bwd)[1]
-    flipped = f"{P}=np.flipud(np.fliplr({P}))" in tb or f"{P}=np.fliplr(np.flipud({P}))" in tb or f"{P}={P}[::-1,::-1]" in tb
-    chk.add("C07-R6", f"{TP}:_proj_backward_2D/flip", flipped, site(repo, bwd), "adjoint convolves with the PSF flipped in both axes",
-            "the backward map does not use the PSF flipped in both axes", bwd)
-    delegates = f"return_proj_forward_2D({func_params(bwd)[0]},{P},{func_params(bwd)[2]})" in tb
-    tf = _norm(fwd)
-    pads = "np.pad(" in tf and "mode='valid'" in tf
-    if not (delegates and pads):
+    if own_algorithm and not ("np.pad(" in tb or "fftconvolve(" in tb):
         raise AnchorError("2-D convolution pair: structure (pad + valid convolution, backward delegating to forward) not recognised")
-    # the forward map is ONE algorithm for every boundary mode: each return yields the padded 'valid' convolution (possibly cropped)
-    gf = CFG(fwd)
-    rdf = ReachingDefs(gf)
+    if delegating:
+        flipped = all(_norm(exb.expand(r.ast.value.args[1], r, stop=frozenset())) in FLIPS or _norm(_flip_arg(exb, r)) in FLIPS for r in delegating)
+        same = all(_norm(r.ast.value.args[0]) == Bp and _norm(r.ast.value.args[2]) == BCp for r in delegating)
+        chk.add("C07-R6", f"{TP}:_proj_backward_2D/flip", flipped and same, site(repo, bwd_src), "adjoint convolves with the PSF flipped in both axes",
+                "the backward map does not use the PSF flipped in both axes (on the same image and boundary mode)", bwd_src)
+    else:
+        flipped = any(f in tb for f in FLIPS)
+        chk.add("C07-R6", f"{TP}:_proj_backward_2D/flip", flipped, site(repo, bwd_src), "adjoint convolves with the PSF flipped in both axes",
+                "the backward map does not use the PSF flipped in both axes", bwd_src)
+    # ---- forward: ONE algorithm for every boundary mode: each return yields the padded 'valid' convolution, cropped only for even sizes
+    exf = Expander(fwd)
+    gf = exf.cfg
+    Xp, Pf, BCf = func_params(fwd_src)[:3]
+    crop_nodes = []
     for r in gf.returns():
+        vals = []
         nm = path_of(r.ast.value)
-        defs = [gf.nodes[i] for i in rdf.reaching(r, nm)] if nm else []
-        srcs = {_norm(d.ast.value) for d in defs if isinstance(d.ast, ast.Assign)}
-        if not nm or not srcs or any(not (s.startswith("fftconvolve(") and s.endswith("mode='valid')")) and s != f"{nm}[1:,1:]" for s in srcs) \
-                or any(g_ for g_ in gf.guards_of(r)):
-            raise AnchorError(f"_proj_forward_2D: `{unparse(r.ast)}` is not the padded 'valid' convolution on every path (a boundary-mode specific "
-                              f"algorithm cannot be compared with the flipped-kernel adjoint by this rule)")
+        if nm:
+            for dn, rhs in exf.defs(r, nm):
+                vals.append((dn, rhs))
+        else:
+            vals.append((r, r.ast.value))
+        for dn, rhs in vals:
+            if rhs is None:
+                raise AnchorError("_proj_forward_2D: returned value has no visible definition")
+            e = exf.expand(rhs, dn)
+            cropped = False
+            if isinstance(e, ast.Subscript) and _norm(e.slice) in ("(slice(1,None,None),slice(1,None,None))", "1:,1:", "(1:,1:)"):
+                cropped = True
+                e = e.value
+                if isinstance(e, ast.Name):
+                    inner = [x for d2, x in exf.defs(dn, e.id) if x is not None and not isinstance(x, ast.Subscript)]
+                    e = exf.expand(inner[0], dn) if len(inner) == 1 else e
+            t = _norm(e)
+            want = f"fftconvolve(np.pad({Xp},max({Pf}.shape)//2,mode={BCf}),{Pf},mode='valid')"
+            if t != want:
+                raise AnchorError(f"_proj_forward_2D: `{unparse(rhs)[:60]}` is not the padded 'valid' convolution on every path (a boundary-mode specific "
+                                  f"algorithm cannot be compared with the flipped-kernel adjoint by this rule)")
+            if cropped:
+                crop_nodes.append(dn)
+    # the crop is taken exactly for even PSF sizes (parity of max(P.shape), decided by evaluating the guard for both parities)
+    for cn in crop_nodes:
+        okp = False
+        for t, lab in gf.guards_of(cn):
+            tv = [_parity_truth(exf.expand(t.ast, t), f"max({Pf}.shape)", p_) for p_ in (0, 1)]
+            if None not in tv and (tv[0] == (lab == "T")) and (tv[1] != (lab == "T")):
+                okp = True
+        if not okp:
+            raise AnchorError("_proj_forward_2D: the guard of the first-row/column crop is not a parity test of the PSF size")
+    tf = _norm(fwd)
     # boundary modes that can reach the pair
     ci = repo.cls(f"{TP}:Deconvolution2D")
     init = repo.method(ci, "__init__")[1]
@@ -194,18 +269,56 @@ def _r6(chk, repo):
     if not modes:
         raise AnchorError("Deconvolution2D: boundary-condition translation table not found")
     bad = sorted(m for m in modes if m not in ("constant", "wrap"))
-    chk.add("C07-R6", f"{TP}:Deconvolution2D/adjoint-padding", not bad, site(repo, bwd),
+    chk.add("C07-R6", f"{TP}:Deconvolution2D/adjoint-padding", not bad, site(repo, bwd_src),
             "padding modes reaching the flipped-kernel adjoint are zero/periodic only",
             f"the adjoint re-pads its input with the forward's np.pad mode; for modes {bad} (symmetric/edge/reflect extension) the transpose of "
             f"'pad then convolve' folds the border back instead of padding, so adjoint != forward^T (exact only for {sorted(modes - set(bad))}, "
-            f"and by symmetry for symmetric PSFs with the symmetric extension)", bwd)
-    crop = "Ax=Ax[1:,1:]" in tf
+            f"and by symmetry for symmetric PSFs with the symmetric extension)", bwd_src)
+    crop = bool(crop_nodes)
     mirrored = "[:-1,:-1]" in tb
-    chk.add("C07-R6", f"{TP}:_proj_backward_2D/even-size-crop", (not crop) or mirrored, site(repo, fwd),
+    chk.add("C07-R6", f"{TP}:_proj_backward_2D/even-size-crop", (not crop) or mirrored, site(repo, fwd_src),
             "even PSF sizes: the adjoint crops the opposite border",
             "for even PSF sizes the forward drops the FIRST row/column of the 'valid' convolution; the backward map reuses exactly this crop with the "
-            "flipped PSF, whereas the transpose requires dropping the LAST row/column: adjoint != forward^T for every even PSF size", fwd)
+            "flipped PSF, whereas the transpose requires dropping the LAST row/column: adjoint != forward^T for every even PSF size", fwd_src)
     model = [n for n in ast.walk(init) if isinstance(n, ast.Assign) and path_of(n.targets[0]) == "model"]
     ok = len(model) == 1 and _norm(model[0].value).startswith("cuqi.model.LinearModel(lambdax:_proj_forward_2D(x,P,BC),lambdax:_proj_backward_2D(x,P,BC),range_geometry,domain_geometry)")
     chk.add("C07-R6", f"{TP}:Deconvolution2D/model", ok, site(repo, init), "forward and adjoint share the same PSF and boundary mode",
             "forward and adjoint of the 2-D deconvolution model are not built on the same (PSF, boundary mode)", init)
+
+
+def _flip_arg(ex, r):
+    """second argument of the delegating call with every reaching definition of a re-bound parameter followed one step"""
+    a = r.ast.value.args[1]
+    nm = path_of(a)
+    if nm:
+        ds = [x for d, x in ex.defs(r, nm) if x is not None]
+        if len(ds) == 1:
+            return ds[0]
+    return a
+
+
+def _parity_truth(e, size_txt: str, p: int):
+    """truth value of a test on the parity of `size` (N & 1, N % 2, compared with 0/1, negated), for parity p; None if it is something else"""
+    def val(x):
+        if isinstance(x, ast.Constant) and isinstance(x.value, (int, bool)):
+            return int(x.value)
+        if isinstance(x, ast.BinOp) and isinstance(x.op, (ast.BitAnd, ast.Mod)) and _norm(x.left) == size_txt and isinstance(x.right, ast.Constant):
+            if isinstance(x.op, ast.BitAnd) and x.right.value == 1:
+                return p
+            if isinstance(x.op, ast.Mod) and x.right.value == 2:
+                return p
+        return None
+    if isinstance(e, ast.UnaryOp) and isinstance(e.op, ast.Not):
+        v = _parity_truth(e.operand, size_txt, p)
+        return None if v is None else (not v)
+    if isinstance(e, ast.Compare) and len(e.ops) == 1:
+        a, b = val(e.left), val(e.comparators[0])
+        if a is None or b is None:
+            return None
+        if isinstance(e.ops[0], ast.Eq):
+            return a == b
+        if isinstance(e.ops[0], ast.NotEq):
+            return a != b
+        return None
+    v = val(e)
+    return None if v is None else bool(v)
